@@ -12,7 +12,8 @@ FILES = ["litedram/phy/lpddr4/commands.py", "litedram/phy/lpddr5/commands.py", "
 LEVEL = "model_checking"
 TECHNIQUE = ("combinational validity (z3 QF_BV) of the elaborated real LPDDR4 DFIPhaseAdapter against an independently typed "
              "JESD209-4 command decoder, all DFI fields symbolic; bounded model checking of the real CommandsPipeline (8 phases, "
-             "span 4, basic and extended overlap check) against a slot-based reference, all command spacings symbolic")
+             "span 4, basic and extended overlap check) against a slot-based reference, all command spacings symbolic; the same for the "
+             "LPDDR5 adapter and for the two-cycle command buffer of the real LPDDR5SimPHY")
 EXPLANATION = ("(1) adapter: for every value of cs_n/ras_n/cas_n/we_n/bank/address the four CS/CA slots decode (JEDEC truth table "
                "typed into the harness, not derived from Command.TRUTH_TABLE) to the DFI operation with the same bank, row or "
                "column, AP/AB flag, mode-register address and operand.  (2) pipeline: every output slot of every cycle equals "
